@@ -1855,10 +1855,10 @@ pub fn run(a: &Args) {
  "2 input alphabet": "CLOSED: keys from a structured alphabet (tags empty/non-empty/nested/unbalanced, families, punctuation, CR LF, glob metacharacters, high bytes, non-UTF-8 on byte paths, empty, 300-byte); values: empty, binary / non-UTF-8, integers at i64 limits, 1 MiB; glob patterns of every shape; CLOSED (session 3): class m7 — all five value types, expiry commands and multi-call scripts as timed streams against the sharding model instantiated with the M7 reference executor (Props/C03M7.lean); OPEN: on the byte paths (fast/pooled/batch) values are strings by construction",
  "3 comparisons at equality": "CLOSED: deadline just before / at / just past / far (every read path); DEL with 1 vs ≥ 2 keys (fan-out threshold); MSET on one vs several shards; SCAN count vs matches; shard counts at the clamp bounds (0, 1, 256, 1000)",
  "4 configuration": "CLOSED: shard counts 0,1,2,3,5,7,64,256,1000 (clamping, non-powers of two), adaptive features on, PerformanceConfig through validate() with response-pool capacity 0/1/2/256 and prewarm 0..capacity+1; OPEN: buffers / batching / connection_pool fields are connection-level (C04)",
- "5 capacity thresholds": "CLOSED: response pool crossed (capacity 1, > capacity outstanding), 2000-key keyspaces on 16/64 shards, batches of 500 pairs; OPEN: none known at this layer (mailboxes are unbounded)",
+ "5 capacity thresholds": "CLOSED: (round 2) batches of 2..257 pairs over 1..8 REPEATED keys through fast_batch_set/get_pipeline (class batch-order: lengths around 20/21, 32/33, 64/65 — the small-size cut-offs of sorting / grouping routines; send order inside one shard group) and through the connection batch collectors (srvc-fast: runs below / at / above batch_threshold, longer than 20, at the head of a read); response pool crossed (capacity 1, > capacity outstanding), 2000-key keyspaces on 16/64 shards, batches of 500 pairs; OPEN: none known at this layer (mailboxes are unbounded)",
  "6 fault kinds": "N/A at this layer (no I/O); task cancellation is C02's (abandon)",
  "7 history shapes": "CLOSED: per-command after-deadline corpus (57 commands of every value type x before/at/after/far, only other shards see traffic while the deadline passes; self-tested: collection lookups skipping set_time), expiry passing between steps on every path, clock standing still / going backwards / jumping 2^44 ms (correspondence only: the 1-vs-N claim is for monotone time), type changes on a key, FLUSH in the middle, scripts introduced via one shard and used via another; OPEN: restart / reload does not exist at this layer",
- "8 node-global state": "CLOSED: routing state immutable at run time (source-derived: plain fields, no &mut self, no assignment, no consumer of ScalingDecision; rebalance probe); script cache in the model (script_cache_global_refines); CONFIG, CLIENT name, SCRIPT FLUSH, DBSIZE/FLUSHALL fan-out probed 1 vs 4 shards; OPEN: INFO (process-dependent fields not compared), ACL stubs",
+ "8 node-global state": "CLOSED (round 2): the script cache used by EVERY shard (EVALSHA and EVAL) before a SCRIPT FLUSH and again after it, fixed session + random streams; routing state immutable at run time (source-derived: plain fields, no &mut self, no assignment, no consumer of ScalingDecision; rebalance probe); script cache in the model (script_cache_global_refines); CONFIG, CLIENT name, SCRIPT FLUSH, DBSIZE/FLUSHALL fan-out probed 1 vs 4 shards; OPEN: INFO (process-dependent fields not compared), ACL stubs",
  "9 observations": "CLOSED: replies, aggregate dump through generic AND byte paths, KEYS as multiset, what exists after the clock passes deadlines (DBSIZE/EXISTS/GET through every path), EVICT tick count (model, not 1-vs-N: legitimately shard-count dependent); OPEN: TTL/PTTL values are C01's; panics of a shard actor surface as 'ERR shard response failed' replies (seen as disagreements), not caught separately",
  "10 finding absorption": "CLOSED: listed findings attributed by cause + model prediction (resolve); new finding C03:script-undeclared-key added by cause",
  "11 harness fragility": "CLOSED: routing probe no longer relies on RENAME; predictor unavailability reported; session 4: the model driver hung on seed 4 (exponential RedisX.classScan on a 300-byte pattern with an unclosed class) — the small executor now evaluates the same matcher with every recursive call bound once (globB_eq); seeds 1..6 exit 0; OPEN: a panic inside the harness' own tasks aborts the run (reported by check as harness exit)",
